@@ -97,7 +97,9 @@ func genC09(x *Ctx) *c09Scen {
 				r.Method = "OPTIONS"
 				r.ACRM = []string{"GET", "POST", "PUT", "DELETE", "PATCH", "get"}[tp.G(6)]
 				r.ACRH = []string{"", "X-Custom", "x-custom", "X-Custom, Accept", " accept ,X-CUSTOM", "X-Other", "X-Custom,X-Other", "Content-Type", "X-Custom,,X-Other", ",X-Other", "X-Custom, , Accept",
-					"X-Custom, Accept, x-custom, ACCEPT, accept", "content-type, Content-Type, CONTENT-TYPE", "Accept, Accept, Accept, X-Custom, X-Other"}[tp.G(14)]
+					"X-Custom, Accept, x-custom, ACCEPT, accept", "content-type, Content-Type, CONTENT-TYPE", "Accept, Accept, Accept, X-Custom, X-Other",
+					// names that merely contain an allowed name
+					"Accept-Version", "X-Custom-Extra, Accept", "Proxy-X-Custom", "xaccept", "X-Content-Type-Options"}[tp.G(19)]
 				if focus && tp.Chance(700) {
 					r.ACRM = []string{"PUT", "POST"}[tp.G(2)]
 					r.ACRH = ""
